@@ -376,6 +376,26 @@ TWO_PHASE_REPLAYS = [
 ]
 
 
+# prune with fast-repack, max_unused 0%, max_repack unlimited, no keep times: a backup, the source is mutated in a few
+# places and backed up again, the first snapshot is forgotten: the packs of the first backup now hold unused blobs
+# BETWEEN used ones, and the fast repack (BlobCopier::copy_fast: one coalesced read spanning the holes, blobs cut
+# out of it by offset) must hand each kept blob its own bytes.  (The random histories reach this only by chance; these four and the ones of gen_fast_history do so with
+# 5-12 mutations between the two backups - found to expose a copy_fast that ignores the holes in 33 of 80 tries.)
+FAST_REPACK_REPLAYS = [
+    "101 20000 512 4 0 1001 0 0 2001 7 1 1 2 0 0 1 0 0 0 0 1 0 0 0 0 0",
+    "104 4096 64 4 0 1004 3 0 2004 7 1 1 2 0 0 1 0 0 0 0 1 0 0 0 0 0",
+    "109 20000 256 4 0 1009 3 0 2009 7 1 1 2 0 0 1 0 0 0 0 1 0 0 0 0 0",
+    "115 20000 256 4 0 1015 2 0 2015 11 1 1 2 0 0 1 0 0 0 0 1 0 0 0 0 0",
+]
+
+
+def gen_fast_history(rng):
+    """backup, 5-12 mutations, backup, forget the first snapshot, prune(fast_repack, max_unused 0%, max_repack unlimited)"""
+    return "%d %d %d 4 0 %d %d 0 %d %d 1 1 2 %d 0 1 0 0 0 0 1 0 0 0 0 0" % (
+        rng.randint(1, 2 ** 31), rng.choice([20000, 4096, 20000]), rng.choice([64, 256, 512]),
+        rng.randint(1, 2 ** 31), rng.randint(0, 3), rng.randint(1, 2 ** 31), rng.randint(5, 12), rng.randint(0, 1))
+
+
 def run(ctx):
     rng, cov = ctx.rng, ctx.coverage
     # 1. facts from the source
@@ -501,9 +521,12 @@ def run(ctx):
     # 5. end-to-end histories on the real library
     nh = 150 if ctx.thorough() else 30
     maxsteps = 8
-    hl = [COLLISION_REPLAY] + RECOVER_REPLAYS + TWO_PHASE_REPLAYS
+    hl = [COLLISION_REPLAY] + RECOVER_REPLAYS + TWO_PHASE_REPLAYS + FAST_REPACK_REPLAYS
     for k in range(nh):
         hl.append(gen_history(rng, maxsteps, with_collision=(k % 7 == 3)))
+    rng_fast = __import__("random").Random(ctx.seed * 7919 + 17)      # own stream: the histories above stay what they were
+    for k in range(40 if ctx.thorough() else 8):
+        hl.append(gen_fast_history(rng_fast))
     if ctx.replay:
         rp = json.load(open(ctx.replay))
         if "history" in rp.get("witness", {}): hl = [rp["witness"]["history"]]
